@@ -19,6 +19,7 @@ import (
 
 	z "github.com/Oudwins/zog"
 	"github.com/Oudwins/zog/conf"
+	"github.com/Oudwins/zog/i18n"
 	"github.com/Oudwins/zog/i18n/en"
 	"github.com/Oudwins/zog/i18n/es"
 	"github.com/Oudwins/zog/internals"
@@ -729,4 +730,22 @@ func TestD38_NilFactory(t *testing.T) {
 	var f internals.DpFactory
 	noPanic(t, "nil DpFactory into Struct", func() { var d D; s.Parse(f, &d) })
 	noPanic(t, "nil DpFactory into Ptr(Struct)", func() { var d *D; z.Ptr(s).Parse(f, &d) })
+}
+
+// D39: with i18n installed, a language context value that is not a plain string panicked when an issue was formatted
+func TestD39_LangValueNotAString(t *testing.T) {
+	old := conf.IssueFormatter
+	defer func() { conf.IssueFormatter = old }()
+	i18n.SetLanguagesErrsMap(map[string]i18n.LangMap{"en": en.Map, "es": es.Map}, "en")
+	type Lang string
+	for _, v := range []any{Lang("es"), 7, []string{"es"}, (*string)(nil)} {
+		v := v
+		noPanic(t, fmt.Sprintf("lang context value %T", v), func() {
+			var s string
+			errs := z.String().Min(5).Parse("ab", &s, z.WithCtxValue("lang", v))
+			if len(errs) != 1 || errs[0].Message != "string must contain at least 5 character(s)" {
+				t.Fatalf("issues %v (want the default language's message)", errs)
+			}
+		})
+	}
 }
